@@ -338,14 +338,16 @@ def oracle_position(data, err, mask, bkg, Wc, Ws, box, sid):
                 rad = math.hypot(sx2 - sy2, 2 * sxy)
                 l1, l2 = 0.5 * (tr + rad), 0.5 * (tr - rad)
                 out['eig'] = (l1, l2)
+                # the angle of the covariance matrix is defined whatever the sign of its
+                # eigenvalues (negative net flux gives a negative-definite matrix)
+                E['orientation'] = math.degrees(0.5 * math.atan2(2 * sxy, sx2 - sy2))
+                out['aniso'] = rad / abs(tr) if tr != 0 else 0.0
                 if l1 >= 0 and l2 >= 0:
                     E['semimajor_sigma'], E['semiminor_sigma'] = math.sqrt(l1), math.sqrt(l2)
                     E['fwhm'] = 2.0 * math.sqrt(math.log(2.0) * (l1 + l2))
                     E['eccentricity'] = math.sqrt(max(0.0, 1.0 - l2 / l1)) if l1 > 0 else nan
                     E['elongation'] = math.sqrt(l1 / l2) if l2 > 0 else math.inf
                     E['ellipticity'] = 1.0 - math.sqrt(l2 / l1) if l1 > 0 else nan
-                    E['orientation'] = math.degrees(0.5 * math.atan2(2 * sxy, sx2 - sy2))
-                    out['aniso'] = rad / tr if tr > 0 else 0.0
                     det = sx2 * sy2 - sxy * sxy
                     E['cxx'], E['cyy'], E['cxy'] = sy2 / det, sx2 / det, -2 * sxy / det
                     rel = 1e-7 * cond
@@ -375,7 +377,7 @@ def _cmp(got, exp, tol):
 # evaluation of one combination
 # ----------------------------------------------------------------------------------------------
 def eval_combo(case, counter=None):
-    """case: shape, variant, mask, err, aper=[kind, params], sum_method, subpixels, sigclip, bkg ('none'|'scalar'|'array'),
+    """case: shape, variant, mask, err, aper=[kind, params], sum_method, subpixels, sigclip, bkg ('none'|'scalar'|'array'|'high'),
     seed, sky (bool).  Returns list of (key, what, k)."""
     import astropy.units as u
     from photutils.aperture import ApertureStats, aperture_photometry
@@ -394,6 +396,11 @@ def eval_combo(case, counter=None):
         bkg_in, bkgs = None, [0.0] * n
     elif case['bkg'] == 'scalar':
         bkg_in, bkgs = 1.5, [1.5] * n
+    elif case['bkg'] == 'high':
+        # above the sky level: the background-subtracted pixels of most apertures sum to a negative
+        # number (centroid and moments are still those of the subtracted values)
+        bkgs = [round(30.0 + 3.0 * k, 3) for k in range(n)]
+        bkg_in = np.array(bkgs)
     else:
         bkgs = [round(0.7 * k - 2.0, 3) for k in range(n)]
         bkg_in = np.array(bkgs)
@@ -649,7 +656,7 @@ def run(ctx):
     # the 'center' method): ('exact', 1) must still be the exact overlap
     methods = [('exact', 5), ('center', 5), ('subpixel', 5), ('subpixel', 2), ('exact', 1), ('subpixel', 1)]
     clips = ['none', 's3', 'asym-mean', 's2-1']
-    bkgs = ['none', 'scalar', 'array']
+    bkgs = ['none', 'scalar', 'array', 'high']
     combos = 0
     nz = [0, 0, 0]
     idx = 0
